@@ -253,6 +253,8 @@ def classify(o):
     i = o['id'] or ''
     if d.startswith('REACH:'):
         return 'R'
+    if 'dynamic allocation is allowed' in d or 'dynamic deallocation is allowed' in d:
+        return 'T'          # a dfcc restriction (allocation inside a loop under contract), not a statement about /repo
     if 'unwinding assertion' in d or '.unwind.' in i or 'recursion' in i:
         return 'U'
     if 'loop invariant' in d.lower() or 'loop_invariant' in i or 'loop_decreases' in i or 'decreases clause' in d.lower() \
